@@ -195,6 +195,7 @@ def run(tier, replay=None):
                 return [("call did not return normally: %s" % r[:120], k) for k, r in enumerate(io) if r.startswith("fault=") or r.startswith("skipped")][:1]
             synth_common.run_histories(ctx, sh, mon, PROP, tag="synth(corpus)")
     unused = [o for o in OP_CALLS if o != "<settings>" and used[o] == 0]
+    ctx.samples = [{"ops": [x[:120] for x in h[1:6]]} for h in hs[:3]]
     ctx.cov.update({"evaluations": len(ops) + ctx.cov.get("evaluations", 0), "histories": len(hs), "monitor_failures": nfail + ctx.cov.get("monitor_failures", 0), "disagreements": ctx.cov.get("disagreements", 0), "documented_failures_checked": nerr,
                     "exported_functions": len(surface), "exported_functions_exercised": len([f for f in surface if f in covered]), "operations_not_drawn_this_run": unused,
                     "input_distribution": dict(used), "distinct_nontrivial": len(set(sq.core(r)[:80] for r in impl)), "exhaustive": False,
